@@ -260,6 +260,19 @@ def c17_cases(tier, rng):
         edges = random_dag(rng, n, rng.choice([0.15, 0.3, 0.5]))
         forever = [i for i in range(n) if rng.random() < 0.25]
         yield {'kind': 'c17', 'n': n, 'edges': edges, 'forever': forever, 'seed': rng.randrange(1 << 30)}
+    # members that are nested schedulers, empty ones included (an empty Scheduler is falsy): a nested scheduler is a job
+    for n in range(1, 4):
+        for edges in all_digraphs(n):
+            if not is_acyclic(n, edges):
+                continue
+            for kinds in itertools.product('jes', repeat=n):
+                if set(kinds) != {'j'}:
+                    yield {'kind': 'c17', 'n': n, 'edges': edges, 'forever': [], 'seed': rng.randrange(1 << 30),
+                           'kinds': ''.join(kinds)}
+    for _ in range(k // 2):
+        n = rng.randint(4, 7)
+        yield {'kind': 'c17', 'n': n, 'edges': random_dag(rng, n, rng.choice([0.2, 0.4])), 'forever': [],
+               'seed': rng.randrange(1 << 30), 'kinds': ''.join(rng.choice('jjes') for _ in range(n))}
     for _ in range(k // 2):
         yield {'kind': 'c17-tree', 'seed': rng.randrange(1 << 30)}
     for _ in range(k // 2):
@@ -384,7 +397,7 @@ def c17_run(case):
                 return 'after edits: ' + err
         return None
     forever = set(case.get('forever', []))
-    s, jobs = build(n, edges, forever=forever)
+    s, jobs = build(n, edges, forever=forever, kinds=case.get('kinds'))
     err = c17_queries(s, jobs, n, edges, forever, rng, n <= 4)
     if err or not n:
         return err
@@ -1133,6 +1146,22 @@ PROPS = {
 }
 
 
+import signal
+
+CASE_BUDGET_S = 10          # per case; the slowest legitimate case takes well under a second
+
+
+class CaseTimeout(BaseException):
+    pass
+
+
+def _on_alarm(signum, frame):
+    raise CaseTimeout()
+
+
+signal.signal(signal.SIGALRM, _on_alarm)
+
+
 def nontrivial(case):
     return bool(case.get('edges')) or case['kind'].endswith('tree') or case['kind'].endswith('op') or 'seed' in case or 'prog' in case or 'spec' in case
 
@@ -1156,15 +1185,22 @@ def main(argv):
     seen = set()
     failures, samples = [], []
     tagged = {}
+    hung = 0
     for case in cases_fn(tier, rng):
         n += 1
         key = json.dumps(case, sort_keys=True)
         if nontrivial(case):
             seen.add(key)
         try:
+            signal.alarm(CASE_BUDGET_S)
             err = run(case)
+        except CaseTimeout:
+            err = 'no answer within %d s of CPU-bound execution (busy loop?): the real code neither returns nor raises' % CASE_BUDGET_S
+            hung += 1
         except Exception as exc:          # the real code crashed on an admissible input
             err = 'exception %r' % (exc,)
+        finally:
+            signal.alarm(0)
         if err:
             # failures carrying a [tag] (candidates for a listed known finding) are capped per tag so that
             # they never crowd out a different failure
@@ -1174,6 +1210,8 @@ def main(argv):
                 failures.append({'id': '%s-%d' % (case['kind'], n), 'what': err, 'case': case})
         if n % 997 == 1 and len(samples) < 5:
             samples.append(case)
+        if hung >= 3:
+            break             # three hung cases are a verdict; exploring on would only burn the time budget
     print(json.dumps({'evaluations': n, 'distinct_nontrivial': len(seen), 'failures': failures,
                       'samples': samples, 'rule': rule, 'bound': rule, 'exhaustive': False}))
     return 1 if failures else 0
